@@ -213,6 +213,29 @@ def explore(ck: Check, full_sites: bool) -> None:
             inputs.append({"format": fmt})
             if got != want:
                 ck.fail("usage-word-in-data-name", f"calcsize({fmt!r}) = {got}; as 'USAGE {want_u} PIC {pic}' it is {want}", {"format": fmt})
+    # clauses around the PICTURE / USAGE: a VALUE clause before the USAGE (clause order is free), and a VALUE literal that happens to
+    # be (or contain) a USAGE word -- the width is that of the item's own picture and usage
+    value_forms = [("PIC {p} VALUE ZERO USAGE {u}", None), ("PIC {p} VALUE 0 {u}", None), ("VALUE ZERO {u} PIC {p}", None),
+                   ("PIC {p} USAGE {u} VALUE IS ZERO", None), ("VALUE IS 1 PIC {p} USAGE IS {u}", None)]
+    for form, _ in value_forms:
+        for u, pic in (("COMP-3", "S9(5)V99"), ("BINARY", "9(4)"), ("COMP", "9(9)"), ("PACKED-DECIMAL", "9(6)"), ("DISPLAY", "9(3)")):
+            fmt = "05 F " + form.format(p=pic, u=u)
+            got = impl_calcsize("", "", fmt=fmt)
+            want = impl_calcsize(u, pic)
+            ck.case(("value-order", fmt), feature="value-clause-before-usage")
+            ck.oracle_evaluations += 1
+            if got != want:
+                ck.fail("value-clause-order", f"calcsize({fmt!r}) = {got}; the item's own USAGE {u} PIC {pic} is {want} bytes", {"format": fmt})
+    for lit in ("'COMP'", "'COMP-3'", '"BINARY"', "'USAGE COMP-3'", "'A COMP-3 B'", "'PACKED-DECIMAL'", "COMP", "'DISPLAY'"):
+        for pic, usage in (("X(12)", None), ("X(12)", "DISPLAY"), ("S9(5)", "COMP-3")):
+            fmt = f"05 F PIC {pic}" + (f" USAGE {usage}" if usage else "") + f" VALUE {lit}"
+            got = impl_calcsize("", "", fmt=fmt)
+            want = impl_calcsize(usage or "DISPLAY", pic)
+            ck.case(("value-literal", fmt), feature="value-literal-is-usage-word")
+            ck.oracle_evaluations += 1
+            if got != want:
+                ck.fail("value-literal-taken-as-usage", f"calcsize({fmt!r}) = {got}; the item's own picture and usage give {want} bytes",
+                        {"format": fmt})
     records_with_shared_names(ck, 40 if full_sites else 12)
     model = ck.driver.run(reqs)
     # Struct-bare / Text-bare were only computed where sites() ran
